@@ -10,9 +10,12 @@ package main
 import (
 	"fmt"
 	"go/ast"
+	"go/constant"
 	"go/token"
 	"go/types"
 	"math/big"
+	"os"
+	"path/filepath"
 	"reflect"
 	"regexp"
 	"sort"
@@ -310,6 +313,8 @@ func checkC13(p *Prog, r *Report) {
 	c04Transform(p, r, "C13.weather-normalisation")
 	c13OptionalColumns(p, r)
 	c13OptionalValues(p, r)
+	c13DefBeforeUse(p, r)
+	c13HeaderNames(p, r)
 	yamlKeysRule(p, r, "C13.yaml-keys", []string{"CropParam", "CropDevelopmentStage"})
 }
 
@@ -1088,5 +1093,146 @@ func yamlKeysRule(p *Prog, r *Report, rule string, structs []string) {
 			seen[key] = f.Name()
 		}
 		r.Ob("keys:"+sn, p.Pos(obj.Pos()), bad == "", fmt.Sprintf("%d fields of %s: %s", st.NumFields(), sn, orStr(bad, "every key is the field's own name or a name no field has")))
+	}
+}
+
+// C13.flags-before-use — both crop-parameter readers decide what to reset for
+// the new crop by the perennial flag OF THE FILE BEING READ: a state field the
+// reader itself sets from the file must not be read earlier in the same reader
+// (it would still hold the previous crop's value, and the two readers would
+// differ in when they assign it).
+func c13DefBeforeUse(p *Prog, r *Report) {
+	r.Rule("C13.flags-before-use", "crop-parameter readers: a scalar state field that the reader assigns from the file is not read in the reader before that assignment (the value read would be the previous crop's)", 2)
+	for _, key := range []string{"hermes.ReadCropParamClassic", "hermes.ReadCropParamYml"} {
+		fi := p.Funcs[key]
+		if fi == nil {
+			r.Ob("reader:"+short(key), "-", false, "reader not found")
+			continue
+		}
+		info := fi.Pkg.TypesInfo
+		firstWrite := map[string]token.Pos{}
+		firstRead := map[string]token.Pos{}
+		lhs := map[ast.Node]bool{}
+		ast.Inspect(fi.Decl.Body, func(n ast.Node) bool {
+			if as, ok := n.(*ast.AssignStmt); ok {
+				for _, l := range as.Lhs {
+					if se, ok := l.(*ast.SelectorExpr); ok {
+						if sel, has := info.Selections[se]; has && sel.Kind() == types.FieldVal {
+							if nm, _ := namedStruct(sel.Recv()); nm == "GlobalVarsMain" {
+								if b, isB := sel.Type().Underlying().(*types.Basic); isB && b != nil {
+									lhs[se] = true
+									if _, seen := firstWrite[se.Sel.Name]; !seen && as.Tok == token.ASSIGN {
+										firstWrite[se.Sel.Name] = as.Pos()
+									}
+								}
+							}
+						}
+					}
+				}
+			}
+			return true
+		})
+		ast.Inspect(fi.Decl.Body, func(n ast.Node) bool {
+			se, ok := n.(*ast.SelectorExpr)
+			if !ok || lhs[se] {
+				return true
+			}
+			if sel, has := info.Selections[se]; has && sel.Kind() == types.FieldVal {
+				if nm, _ := namedStruct(sel.Recv()); nm == "GlobalVarsMain" {
+					if _, isB := sel.Type().Underlying().(*types.Basic); isB {
+						if _, seen := firstRead[se.Sel.Name]; !seen {
+							firstRead[se.Sel.Name] = se.Pos()
+						}
+					}
+				}
+			}
+			return true
+		})
+		bad := ""
+		n := 0
+		for f, w := range firstWrite {
+			if rd, ok := firstRead[f]; ok {
+				n++
+				if rd < w {
+					bad += fmt.Sprintf("%s read at %s, assigned from the file at %s; ", f, p.Pos(rd), p.Pos(w))
+				}
+			}
+		}
+		r.Ob("def-before-use:"+short(key), p.Pos(fi.Decl.Pos()), bad == "", fmt.Sprintf("%d scalar state fields both assigned and read by the reader; read before the assignment: %s", n, orStr(bad, "none")))
+	}
+}
+
+// C13.header-names — the CSV layouts are addressed by column NAME.  The names
+// the readers know are a table in the code; the names people write are the
+// ones of the shipped files (the fixed-width measurement files carry the same
+// header line as their CSV counterpart).  Every column name of every shipped
+// measurement and soil table must be a key of the reader's table: a renamed
+// key silently turns a supplied column into an absent optional one.
+func c13HeaderNames(p *Prog, r *Report) {
+	r.Rule("C13.header-names", "column names: every name in the header line of the shipped measurement files (fixed-width and CSV) is a key of the CSV measurement reader's name table, every name in the header of the shipped CSV soil tables a key of the soil reader's name table", 2)
+	mapKeys := func(lit *ast.CompositeLit, info *types.Info) map[string]bool {
+		out := map[string]bool{}
+		for _, el := range lit.Elts {
+			if kv, ok := el.(*ast.KeyValueExpr); ok {
+				if tv := info.Types[kv.Key]; tv.Value != nil && tv.Value.Kind() == constant.String {
+					out[constant.StringVal(tv.Value)] = true
+				}
+			}
+		}
+		return out
+	}
+	split := func(line string) []string {
+		return strings.FieldsFunc(strings.TrimSpace(strings.TrimPrefix(line, "\ufeff")), func(c rune) bool { return c == ',' || c == ';' || c == ' ' || c == '\t' || c == '\r' })
+	}
+	check := func(kind string, keys map[string]bool, globs []string) {
+		var files []string
+		for _, g := range globs {
+			m, _ := filepath.Glob(filepath.Join(p.Root, g))
+			files = append(files, m...)
+		}
+		sort.Strings(files)
+		bad := ""
+		for _, f := range files {
+			b, err := os.ReadFile(f)
+			if err != nil {
+				continue
+			}
+			line := strings.SplitN(string(b), "\n", 2)[0]
+			for _, tok := range split(line) {
+				if !keys[tok] {
+					rel, _ := filepath.Rel(p.Root, f)
+					bad += fmt.Sprintf("%q in %s; ", tok, rel)
+				}
+			}
+		}
+		r.Ob("names:"+kind, "-", len(keys) > 0 && len(files) > 0 && bad == "", fmt.Sprintf("%d shipped %s files, %d names in the reader's table; names the reader does not know: %s", len(files), kind, len(keys), orStr(bad, "none")))
+	}
+	// measurement table: the map literal inside the CSV reader
+	if fi := p.Funcs["hermes.ExtractMeasuredDataCSV"]; fi != nil {
+		var keys map[string]bool
+		ast.Inspect(fi.Decl.Body, func(n ast.Node) bool {
+			if cl, ok := n.(*ast.CompositeLit); ok && keys == nil {
+				if _, isMap := fi.Pkg.TypesInfo.TypeOf(cl).Underlying().(*types.Map); isMap {
+					if k := mapKeys(cl, fi.Pkg.TypesInfo); len(k) > 5 {
+						keys = k
+					}
+				}
+			}
+			return true
+		})
+		check("measurement", keys, []string{"examples/project/*/endit_*.txt", "examples/project/*/endit_*.csv"})
+	}
+	// soil table: package-level variable
+	for _, f := range p.Hermes.Syntax {
+		ast.Inspect(f, func(n ast.Node) bool {
+			vs, ok := n.(*ast.ValueSpec)
+			if !ok || len(vs.Names) != 1 || vs.Names[0].Name != "soilHeaderNames" || len(vs.Values) != 1 {
+				return true
+			}
+			if cl, ok := vs.Values[0].(*ast.CompositeLit); ok {
+				check("soil", mapKeys(cl, p.Hermes.TypesInfo), []string{"examples/project/*/soil_*.csv"})
+			}
+			return false
+		})
 	}
 }
